@@ -157,6 +157,7 @@ func streamRoute(c *ctx) {
 		rs.close()
 		c.w.Emit("route-after-timeout udp", fmt.Sprintf("first:%s second:%s %s", map[bool]string{true: "ok", false: "err"}[err1 == nil], map[bool]string{true: "ok", false: "err"}[err2 == nil], from), "route/after-a-timed-out-broadcast")
 	}
+	discoverDuringCall(c)
 	// the (bind address:port -> controller) TCP 4-tuple is taken by another connection when the call is made (another process
 	// sharing the bind port, or the previous connection still in TIME_WAIT): the call may fail, but nothing may reach the
 	// controller from any other source address or port
@@ -205,6 +206,45 @@ func streamRoute(c *ctx) {
 }
 
 // the real listener on a loopback port
+// discovery started while a call holds the fixed bind port for a whole timeout (its controller is silent): discovery
+// waits its turn, is sent from the configured bind address and port, and still collects for a whole timeout
+func discoverDuringCall(c *ctx) {
+	bind := freePort()
+	silent := newUDPResponder("127.0.0.6", nil)
+	disc := newUDPResponder("127.0.0.7", func(req []byte) []step {
+		reply := messages.GetDeviceResponse{SerialNumber: 5400009, IpAddress: net.IPv4(127, 0, 0, 7), SubnetMask: net.IPv4(255, 0, 0, 0),
+			Gateway: net.IPv4(127, 0, 0, 1), MacAddress: types.MacAddress{1, 2, 3, 4, 5, 6}, Version: 0x0892, Date: types.ToDate(2024, 1, 1)}
+		b, _ := codec.Marshal(reply)
+		return []step{{T / 4, b}}
+	})
+	sap := netip.MustParseAddrPort(silent.addr())
+	dap := netip.MustParseAddrPort(disc.addr())
+	u := uhppote.NewUHPPOTE(types.BindAddrFrom(netip.MustParseAddr("127.0.0.9"), uint16(bind)), types.BroadcastAddrFrom(dap.Addr(), dap.Port()), types.ListenAddrFrom(netip.MustParseAddr("127.0.0.1"), 60001), T,
+		[]uhppote.Device{{DeviceID: 5400001, Address: types.ControllerAddrFrom(sap.Addr(), sap.Port()), Protocol: "udp"}}, false)
+	callErr := make(chan error, 1)
+	go func() {
+		_, err := getCard(u, 5400001, 424242)
+		callErr <- err
+	}()
+	time.Sleep(T / 5) // the call is under way
+	devs, derr := u.GetDevices()
+	err1 := <-callErr
+	time.Sleep(20 * time.Millisecond)
+	from := "from-bound-port"
+	disc.mu.Lock()
+	if len(disc.from) != 1 || disc.from[0] != fmt.Sprintf("127.0.0.9:%d", bind) {
+		from = fmt.Sprintf("heard=%d-not-from-the-bound-port", len(disc.from))
+	}
+	disc.mu.Unlock()
+	silent.close()
+	disc.close()
+	found := fmt.Sprintf("discovered=%d", len(devs))
+	if derr != nil {
+		found = "discovery-failed"
+	}
+	c.w.Emit("discover-during-call udp", fmt.Sprintf("call:%s %s %s", map[bool]string{true: "ok", false: "err"}[err1 == nil], found, from), "route/discovery-behind-a-call")
+}
+
 func streamRListen(c *ctx) {
 	r := c.r
 	for n := 0; n < 6*c.scale; n++ {
@@ -434,5 +474,6 @@ func streamRDiscover(c *ctx) {
 		c.w.Emit(fmt.Sprintf("rdiscover T=%d | %s", timeout.Milliseconds(), strings.Join(ps, " ")), fmt.Sprintf("%s [%s] %s", res, strings.Join(got, ","), timeClassOf(el, timeout)), "rdiscover")
 		_ = want
 	}
+	discoverDuringCall(c)
 	c.w.Notes = append(c.w.Notes, "rdiscover stream: GetDevices through the real driver against a responder that answers with 0..5 datagrams (valid / truncated / over-long with a valid 64-byte prefix / wrong function code / non-BCD date; duplicates of 3 serial numbers) at 3..100 ms or after the window, once 300 malformed datagrams followed by two valid replies; every second client with the debug flag on; the call lasts one timeout")
 }
